@@ -379,12 +379,24 @@ def render_pieces(pieces, keep):
 # encodings for harness and driver
 
 def hx(s):
-    b = s.encode("utf-8")
+    b = s.encode("utf-8", errors="surrogateescape")
     return b.hex() if b else "-"
 
 
 def unhx(h):
-    return "" if h == "-" else bytes.fromhex(h).decode("utf-8", errors="replace")
+    """bytes -> str, one to one (bytes that are not UTF-8 become lone surrogates)"""
+    return "" if h == "-" else bytes.fromhex(h).decode("utf-8", errors="surrogateescape")
+
+
+def safe(o):
+    """printable copy (lone surrogates written as escapes)"""
+    if isinstance(o, str):
+        return o.encode("utf-8", errors="backslashreplace").decode("utf-8")
+    if isinstance(o, dict):
+        return {safe(k): safe(v) for k, v in o.items()}
+    if isinstance(o, (list, tuple)):
+        return [safe(x) for x in o]
+    return o
 
 
 class Ids:
@@ -1014,6 +1026,9 @@ def problem_class(p):
     t = p[0]
     table = [("crashed", "crash-in-library"),
              ("front end rejects", "frontend-rejects-valid-text"),
+             ("text front end: the real scanner/parser", "front-end-accept-reject-differs"),
+             ("text front end: grammar name", "front-end-grammar-name-differs"),
+             ("text front end: rule table", "front-end-rule-table-differs"),
              ("no public rule, but jsgf_read_string", "read-string-no-public-rule"),
              ("jsgf_read_string compiles the non-public", "read-string-non-public-rule"),
              ("jsgf_read_string compiles", "read-string-not-refused"),
@@ -1022,6 +1037,7 @@ def problem_class(p):
              ("hidden behind a tail reference chain", "hidden-non-tail-recursion-not-refused"),
              ("builds an FSG instead of refusing", "not-refused"),
              ("but the compiler refuses it", "refuses-representable"),
+             ("but the compiler refuses", "refuses-representable"),
              ("the language of the JSGF rule", "language-differs"),
              ("rule table built by the real", "rule-table-differs"),
              ("mirror of expand_rule", "expansion-differs-from-mirror"),
@@ -1113,6 +1129,401 @@ def shrink_layout(g, marked, cls):
 
 
 # ----------------------------------------------------------------------------
+# text front end: arbitrary (valid, mutated, malformed) JSGF text through the real scanner/parser and through
+# the Lean lexer + pushdown parser (`ssdriver c05 text`), then the whole pipeline on what was accepted
+
+INTERNAL_RE = re.compile(r"^<(.*)\.g([0-9]{5})>$", re.S)
+
+
+def has_dot_after1(name):
+    return "." in name[1:]
+
+
+def grammar_of(rule_full):
+    """extract_grammar_name(rule->name) (untrusted mirror, used only to resolve the raw atom names of the C dump)"""
+    copy = rule_full[1:]
+    i = copy.rfind(".")
+    return copy[:i] if i >= 1 else None
+
+
+def full_ref(ctx, name):
+    if has_dot_after1(name):
+        return name
+    return name if ctx is None else "<" + ctx + "." + name[1:]
+
+
+def c_table_text(crules):
+    """C dump -> {'r:<full>': (pub, [[(key, weight, ntags)]])}; raw atom names resolved as jsgf_fullname_from_rule does"""
+    out = {}
+    for nm, pub, alts in crules:
+        ctx = grammar_of(nm)
+        al = []
+        for alt in alts:
+            at = []
+            for a, w, t in alt:
+                if a == "<NULL>":
+                    k = "n"
+                elif a == "<VOID>":
+                    k = "v"
+                elif a.startswith("<"):
+                    k = "r:" + full_ref(ctx, a)
+                else:
+                    k = "t:" + a
+                at.append((k, w, t))
+            al.append(at)
+        out["r:" + nm] = (pub, al)
+    return out
+
+
+def m_table_text(line, gname, R, W):
+    t = m_table(line)
+
+    def nm(k):
+        if k in ("n", "v"):
+            return k
+        if k[0] == "u":
+            return "r:" + R[int(k[1:])]
+        if k[0] == "g":
+            return "r:<%s.g%05d>" % (gname, int(k[1:]))
+        return "t:" + W[int(k[1:])]
+    return {nm(k): (pub, [[(nm(a), w, tg) for a, w, tg in alt] for alt in alts]) for k, (pub, alts) in t.items()}
+
+
+def canon_named(rules):
+    """renumber internal rules (<grammar.gNNNNN>) in order of first visit from the user rules"""
+    order, ren = [], {}
+
+    def internal(k):
+        return k.startswith("r:") and INTERNAL_RE.match(k[2:]) is not None
+
+    def visit(nm):
+        if nm not in rules or nm in order:
+            return
+        order.append(nm)
+        for alt in rules[nm][1]:
+            for a, _, _ in alt:
+                if internal(a):
+                    if a not in ren:
+                        ren[a] = "G%d" % len(ren)
+                    visit(a)
+    for nm in sorted(k for k in rules if not internal(k)):
+        visit(nm)
+    for nm in sorted(rules):
+        if nm not in order:
+            ren.setdefault(nm, "X" + nm)
+            order.append(nm)
+    return [(ren.get(nm, nm), rules[nm][0], [[(ren.get(a, a), w, t) for a, w, t in alt] for alt in rules[nm][1]])
+            for nm in order]
+
+
+def tofloat(w):
+    try:
+        return float(w)
+    except OverflowError:
+        return float("inf")
+
+
+def named_tables_equal(ct, mt, tol=3e-6):
+    a, b = canon_named(ct), canon_named(mt)
+    if len(a) != len(b):
+        return False, f"{len(a)} rules in the implementation, {len(b)} in the model"
+    for (n1, p1, al1), (n2, p2, al2) in zip(a, b):
+        if n1 != n2 or p1 != p2 or len(al1) != len(al2):
+            return False, f"rule {n1!r}/{n2!r}: name, public flag or number of alternatives differ"
+        for x, y in zip(al1, al2):
+            if len(x) != len(y):
+                return False, f"rule {n1!r}: alternative lengths differ"
+            for (k1, w1, t1), (k2, w2, t2) in zip(x, y):
+                if k1 != k2 or t1 != t2:
+                    return False, f"rule {n1!r}: atom {k1!r}/{k2!r} tags {t1}/{t2}"
+                f2 = tofloat(w2)
+                if not (w1 == f2 or abs(w1 - f2) <= tol * max(1.0, abs(f2))):
+                    return False, f"rule {n1!r}: weight of {k1!r}: {w1} vs {f2}"
+    return True, ""
+
+
+MUT_PIECES = [";", "|", "(", ")", "[", "]", "*", "+", "=", "{t}", "{a\\}b}", "{", "}", "/2/", "/0.5/", "/1e-2/", "/", "//",
+              "<x>", "<NULL>", "<VOID>", "<a>", "<g.a>", "<a.b>", "<", ">", "public", "grammar", "import <a.b>;",
+              "import <c>;", "#JSGF", "x", "y", '"q r"', '"', "\\", "/* c */", "/*", "*/", "// c\n", "\n", " ", "\n;",
+              "<a> = x;", "public <p> = <a> y;", "<a> = z;", "/3/", "/.5/", "/e-1/", "/1.5/ <a>", "x /2/ <a>", "x /0.5/ <NULL>",
+              "(x /2/ (y))", "grammar h;", "#JSGF V1.0;"]
+MUT_BYTES = [b";", b"|", b"(", b")", b"[", b"]", b"*", b"+", b"=", b"{", b"}", b"/", b"<", b">", b'"', b"\\", b"\n", b" ",
+             b"\t", b"\r", b"#", b".", b"e", b"-", b"0", b"9", b"x", b"\xc3", b"\xef", b"\xbb", b"\xbf", b"\x01", b"\x7f", b"\xff"]
+
+
+def mutate_text(rng, marked, stats):
+    """token-level (pieces of the printer) and byte-level mutations of a valid text -> bytes"""
+    pieces = [t for k, t in layout_pieces(marked) if k != "rule"]
+    nm = rng.weighted([(1, 50), (2, 30), (3, 15), (5, 5)])
+    kind = rng.weighted([("token", 55), ("byte", 35), ("both", 10)])
+    stats["mutation_kind"][kind] = stats["mutation_kind"].get(kind, 0) + 1
+    if kind in ("token", "both"):
+        for _ in range(nm):
+            op = rng.weighted([("delete", 25), ("insert", 40), ("dup", 10), ("swap", 10), ("replace", 15)])
+            if not pieces:
+                break
+            i = rng.below(len(pieces))
+            if op == "delete":
+                del pieces[i]
+            elif op == "insert":
+                pieces.insert(i, rng.choice(MUT_PIECES) + rng.choice(["", " "]))
+            elif op == "dup":
+                pieces.insert(i, pieces[i])
+            elif op == "swap" and i + 1 < len(pieces):
+                pieces[i], pieces[i + 1] = pieces[i + 1], pieces[i]
+            elif op == "replace":
+                pieces[i] = rng.choice(MUT_PIECES)
+    data = bytearray("".join(pieces).encode("utf-8"))
+    if kind in ("byte", "both"):
+        for _ in range(nm):
+            op = rng.weighted([("delete", 30), ("insert", 35), ("replace", 25), ("truncate", 10)])
+            if not data:
+                break
+            i = rng.below(len(data))
+            if op == "delete":
+                del data[i]
+            elif op == "insert":
+                data[i:i] = rng.choice(MUT_BYTES)
+            elif op == "replace":
+                data[i:i + 1] = rng.choice(MUT_BYTES)
+            else:
+                del data[i:]
+    return bytes(data.replace(b"\x00", b" "))
+
+
+class TextIds:
+    """name tables of the model's parse (`tparse` answer)"""
+
+    def __init__(self, R, W):
+        self.R, self.W = R, W
+        self.rule = {n: i for i, n in enumerate(R)}
+        self.word = {w: i for i, w in enumerate(W)}
+
+
+def run_text_batch(texts):
+    """texts: list of bytes.  Real front end + builds of every user rule, Lean front end + model pipeline."""
+    binp = vlib.build_harness("h_c05")
+    lines = [f"case {i} {t.hex() or '-'} *" for i, t in enumerate(texts)]
+    hcases, pos = [], 0
+    while pos < len(texts):
+        rc, out, err = vlib.run_bin(binp, stdin_text="\n".join(lines[pos:]) + "\n", timeout=900,
+                                    env_extra={"JSGF_PATH": "/nonexistent-verif-c05"})
+        got = parse_harness(out)
+        for hc in got:
+            hc["rc"], hc["err"] = 0, ""
+        if rc != 0 and got:
+            got[-1]["rc"], got[-1]["err"] = rc, err[-3000:]
+        elif rc != 0:
+            got.append({"id": str(pos), "parse": None, "rules": {}, "fsg": [], "stack": [], "read": None,
+                        "done": False, "rc": rc, "err": err[-3000:], "missing": []})
+        hcases += got
+        if not got:
+            break
+        pos += len(got)
+    # first driver pass: parse only (the name tables are needed to phrase the other questions)
+    rc, dout, derr = run_driver_retry("\n".join(f"text {t.hex() or '-'}" for t in texts) + "\n")
+    d1 = dout.rstrip("\n").split("\n") if dout.strip() else []
+    if rc != 0 or len(d1) != len(texts):
+        raise DriverFailure(f"driver (text) rc={rc}, {len(d1)} answers for {len(texts)} texts: {derr[-600:]}")
+    results, dlines, plan = [], [], []
+    for i, t in enumerate(texts):
+        hc = hcases[i] if i < len(hcases) else None
+        ans = d1[i]
+        res = {"text": t, "h": hc, "m_parse": ans, "ids": None, "rep": {}, "expand": {}, "cmp": {}, "extra_words": {}}
+        results.append(res)
+        if not ans.startswith("tparse "):
+            continue
+        head, _, _ = ans.partition(" | ")
+        w = head.split(" ")
+        gname = unhx(w[1])
+        R = [unhx(x) for x in w[2][2:].split(",")] if len(w[2]) > 2 else []
+        W = [unhx(x) for x in w[3][2:].split(",")] if len(w[3]) > 2 else []
+        ids = TextIds(R, W)
+        res["ids"], res["gname"] = ids, gname
+        if hc is None or not hc.get("parse"):
+            continue
+        dlines.append(f"text {t.hex() or '-'}")
+        plan.append((i, "text", None))
+        for top, kind, fsg in hc["fsg"]:
+            if kind != "raw" or top not in ids.rule:
+                continue
+            u = ids.rule[top]
+            dlines.append(f"rep u{u} {FUEL}")
+            plan.append((i, "rep", top))
+            dlines.append(f"expand u{u}")
+            plan.append((i, "expand", top))
+        for top, kind, fsg in hc["fsg"]:
+            if isinstance(fsg, dict) and top in ids.rule:
+                if kind == "closed" and len(fsg["arcs"]) > MAX_CLOSED_ARCS:
+                    res["cmp"][(top, kind)] = "skipped-size"
+                    continue
+                if fsg["n"] > 4 * MAX_STATES:
+                    res["cmp"][(top, kind)] = "skipped-size"
+                    continue
+                dlines.append(f"cmp u{ids.rule[top]} {FUEL} {MAXPAIRS} {fsg['n']} {fsg['start']} {fsg['final']} " +
+                              " ".join(fsg_arcs_tokens(fsg, ids, res["extra_words"])))
+                plan.append((i, "cmp", (top, kind)))
+    if dlines:
+        rc, dout, derr = run_driver_retry("\n".join(dlines) + "\n")
+        d2 = dout.rstrip("\n").split("\n") if dout.strip() else []
+        if rc != 0 or len(d2) != len(plan):
+            raise DriverFailure(f"driver rc={rc}, {len(d2)} answers for {len(plan)} questions: {derr[-600:]}")
+        for (i, what, arg), ans in zip(plan, d2):
+            if what != "text":
+                results[i][what][arg] = ans
+    return results
+
+
+def judge_text(res):
+    """problems of one text case: (what, implementation_violates_property, detail)"""
+    hc, ans = res["h"], res["m_parse"]
+    probs = []
+    if hc is None:
+        return [("harness produced nothing for the case", False, "")]
+    if hc.get("rc"):
+        probs.append(("the library crashed / exited / was stopped by a sanitizer", True,
+                      {"exit_code": hc["rc"], "stderr_tail": sanitizer_summary(hc["err"])}))
+    if hc["parse"] is None:
+        return probs
+    m_ok = ans.startswith("tparse ")
+    if hc["parse"] != m_ok:
+        probs.append((f"text front end: the real scanner/parser {'accepts' if hc['parse'] else 'rejects'} the text, the Lean "
+                      f"lexer/parser {'accepts' if m_ok else 'rejects'} it", None, ""))
+        return probs
+    if not m_ok:
+        return probs
+    ids, gname = res["ids"], res["gname"]
+    if (hc.get("gname") or "") != gname:
+        probs.append((f"text front end: grammar name {hc.get('gname')!r} vs {gname!r}", None, ""))
+    try:
+        ct = c_table_text(hc["rules"].get("parsed", []))
+        mt = m_table_text(ans, gname, ids.R, ids.W)
+        ok, why = named_tables_equal(ct, mt)
+    except Exception as e:
+        ok, why = False, f"cannot compare the rule tables: {e!r}"
+    if not ok:
+        probs.append(("text front end: rule table built by the real scanner/parser differs from the Lean parse + desugar", None, why))
+        return probs
+    rep = {}
+    for top, a in res["rep"].items():
+        w = a.split(" ")
+        rep[top] = len(w) >= 5 and w[1] == "1"
+        if rep[top] and w[4] == "none":
+            probs.append((f"model: rule {top} builds but the exploration found no closed finite set of forms", False, ""))
+    for top, kind, fsg in hc["fsg"]:
+        if fsg == "crash" or top not in ids.rule:
+            continue
+        if fsg is None:
+            if rep.get(top):
+                probs.append((f"rule {top} ({kind}) is representable but the compiler refuses it", True, ""))
+            continue
+        if not rep.get(top):
+            probs.append((f"rule {top} ({kind}) cannot be represented but the compiler builds an FSG instead of refusing", True,
+                          {"fsg": fsg_brief(fsg)}))
+            continue
+        if kind == "raw":
+            why = mirror_diff(res["expand"].get(top, ""), fsg, ids, res["extra_words"])
+            res["mirror_compared"] = res.get("mirror_compared", 0) + 1
+            if why:
+                probs.append((f"raw FSG of {top} differs from the mirror of expand_rule: {why}", None, ""))
+        a = res["cmp"].get((top, kind), "")
+        if a.startswith("differ "):
+            w = a.split(" ")
+            sent = words_of(w[1], ids, res["extra_words"])
+            probs.append((f"rule {top} ({kind} FSG): sentence {sent!r} is {'accepted' if w[2] == 'impl=1' else 'rejected'} by the "
+                          f"FSG but {'in' if w[3] == 'spec=1' else 'not in'} the language of the JSGF rule", True,
+                          {"sentence": sent, "fsg": fsg_brief(fsg)}))
+        elif a not in ("equal", "skipped-size"):
+            probs.append((f"language comparison for {top} ({kind}) did not complete: {a[:80]}", False, ""))
+    for top, depth in hc["stack"]:
+        if depth != 0:
+            probs.append((f"rule stack not empty after building {top} (depth {depth}): a later build is influenced", None, ""))
+    return [(safe(a), b, safe(d)) for a, b, d in probs]
+
+
+def text_stream(c, gen, stats, ntexts, failed, fail_count, machinery):
+    """valid random-layout texts, their mutations, and hand-written odd texts"""
+    rng = c.rng
+    batch, labels = [], []
+    st = stats.setdefault("text_stream", {"texts": 0, "accepted_by_both": 0, "rejected_by_both": 0, "built": 0,
+                                          "refused": 0, "comparisons": 0})
+    stats.setdefault("mutation_kind", {})
+
+    def flush():
+        if not batch:
+            return
+        try:
+            results = run_text_batch(batch)
+        except DriverFailure as e:
+            machinery.append(str(e))
+            batch.clear()
+            labels.clear()
+            return
+        for res, lab in zip(results, labels):
+            st["texts"] += 1
+            probs = judge_text(res)
+            hc = res["h"] or {}
+            if hc.get("parse") is True and res["m_parse"].startswith("tparse "):
+                st["accepted_by_both"] += 1
+            elif hc.get("parse") is False and not res["m_parse"].startswith("tparse "):
+                st["rejected_by_both"] += 1
+            for _, _, f in hc.get("fsg", []):
+                st["built" if isinstance(f, dict) else "refused"] += 1
+            st["comparisons"] += sum(1 for v in res["cmp"].values() if v == "equal")
+            stats["mirror_compared"] = stats.get("mirror_compared", 0) + res.get("mirror_compared", 0)
+            if probs:
+                cls = "text: " + problem_class(main_problem(probs))
+                fail_count[cls] = fail_count.get(cls, 0) + 1
+                if cls not in failed:
+                    failed[cls] = (res, probs, None, lab)
+        batch.clear()
+        labels.clear()
+    for t in HAND_TEXTS:
+        batch.append(t.encode("utf-8") if isinstance(t, str) else t)
+        labels.append("hand-written text")
+    for i in range(ntexts):
+        g = gen.grammar()
+        marked = Printer(rng, plain=rng.chance(0.2), stats=None).marked(g)
+        if rng.chance(0.25):
+            batch.append(strip_marks(marked).encode("utf-8"))
+            labels.append("valid text")
+        else:
+            batch.append(mutate_text(rng, marked, stats))
+            labels.append("mutated text")
+        if len(batch) >= 250:
+            flush()
+            if sum(v for k, v in fail_count.items() if k.startswith("text: ")) >= 40:
+                break
+    flush()
+
+
+HAND_TEXTS = [
+    "", "#JSGF V1.0;", "#JSGF V1.0; grammar g;", "#JSGF V1.0; grammar g; import <a.b>;", "#JSGF V1.0; grammar g; import <a.b>; <a> = x;",
+    "#JSGF V1.0; grammar g; <a> = x; import <a.b>;", "#JSGF V1.0 a b c; grammar g; <a> = x;", "#JSGF V1.0 a b c d; grammar g; <a> = x;",
+    "#JSGF; grammar g; public <a> = x", "#JSGF; grammar g; public <a> = ;", "#JSGF; grammar g; public <a> = x | ;",
+    "#JSGF; grammar g; public <a> = ( ) ;", "#JSGF; grammar g; public <a> = x {t} * ;", "#JSGF; grammar g; public <a> = x * {t} {u} + ;",
+    "#JSGF; grammar g; public <a> = /2/ /3/ x ;", "#JSGF; grammar g; public <a> = /2/ {t} x ;", "#JSGF; grammar g; public <a> = /2/ ( x | y ) * ;",
+    "#JSGF; grammar g; public <a> = x /2/ y ;", "#JSGF; grammar g; public <a> = x /2/ <b> ; <b> = y;", "#JSGF; grammar g; public <a> = x /0.5/ <b> /0.25/ <NULL> ; <b> = y;",
+    "#JSGF; grammar g; public <a> = x ; <a> = y ; <b> = <a> ;", "#JSGF; grammar g; <a> = (x) ; <a> = (y) (z) ; public <b> = <a> (w) ;",
+    "#JSGF; grammar g; public <a> = <g.b> <b> <x.b> ; <b> = y ; <x.b> = z ;", "#JSGF; grammar g; public <x.a> = <b> (<b>) <b>* ; <b> = y ; <x.b> = z ;",
+    "#JSGF; grammar a.b; public <c> = <d> ; <d> = y ;", "#JSGF; grammar g; public <.a> = <b> ; <b> = y ;",
+    "#JSGF; grammar g; public <a> = \"x y\" \"x\\\" z\" \"u\\\\\" v\" w ;", "#JSGF; grammar g; public <a> = x\"y z\" ;", "#JSGF; grammar g; public <a> = \"unterminated ;",
+    "#JSGF; grammar g; public <a> = x {a\\}b} {c} {d\\\\} e} ;", "#JSGF; grammar g; public <a> = x {unterminated ;", "#JSGF; grammar g; public <a> = x } ;",
+    "#JSGF; grammar g; public <a> = x /* c */ y // d\n z ;", "#JSGF; grammar g; public <a> = x // no newline at the end ;", "#JSGF; grammar g; /* c ; */ public <a> = x ; // e",
+    "#JSGF; grammar g; public <a> = x /* unterminated ;", "#JSGF; grammar g; public <a> = x //;\n;", "#JSGF; grammar g; public <a> = x /**/ y /***/ z ;",
+    "junk #JSGF; more junk grammar g; 123 public <a> = x ; trailing junk", "#JSGF; grammarg; public<a>=x;", "#JSGF; grammar g; publicx <a> = x ;",
+    "#JSGF; grammar g; public <a\nb> = <a\nb> x | y ;", "#JSGF; grammar g; public <a> = <> x ;", "#JSGF; grammar g; public <a> = < x ;", "#JSGF; grammar g; public <a> = x > ;",
+    "#JSGF; grammar g; public <a> = /1.5e-1/ x | /e-1/ y | // z\n /5e-/ w | /.5/ v | /5./ u ;", "#JSGF; grammar g; public <a> = /1.2.3/ x ;", "#JSGF; grammar g; public <a> = /12 x ;",
+    "#JSGF; grammar g; public <a> = x\n; <b> = y\r\n;\n", "﻿#JSGF V1.0; grammar g; public <a> = x;", "﻿ #JSGF V1.0; grammar g; public <a> = x;",
+    "#JSGF; #JSGF; grammar g; public <a> = x;", "#JSGF; grammar g; grammar h; public <a> = x;", "#JSGF; grammar g; public public <a> = x;",
+    "#JSGF; grammar g; public <a> = x = y ;", "#JSGF; grammar g; public <a> = [ x ) ;", "#JSGF; grammar g; public <a> = ( x ] ;", "#JSGF; grammar g; public <a> = (( x ) ;",
+    "#JSGF; grammar g; public <a> = [ [ x ]* ]+ ( ( y ) ) ;", "#JSGF; grammar g; public <a> = * x ;", "#JSGF; grammar g; public <a> = x | * ;",
+    "#JSGF; grammar g; public <a> = <NULL> <VOID> <NULL>* <VOID>+ [<NULL>] ;", "#JSGF; grammar g; public <a> = grammar import public #JSGF ;",
+    "#JSGF; grammar \"q r\"; public <a> = x;", "#JSGF; grammar <g>; public <a> = x;", "#JSGF; grammar g h; public <a> = x;",
+]
+
+
+# ----------------------------------------------------------------------------
 # the check
 
 def report(c, res, probs, label, marked=None, do_shrink=True):
@@ -1161,6 +1572,43 @@ def report(c, res, probs, label, marked=None, do_shrink=True):
                  "finding_key": key,
                  "how_to_rerun": "python3 tools/check.py C05 --replay <this file>"}, impl, tag=problem_class(main),
                 finding_key=key)
+    return False
+
+
+def report_text(c, res, probs, label):
+    """violation report for a text case, shrunk byte-wise"""
+    cls = problem_class(main_problem(probs))
+
+    def fails(bs):
+        try:
+            r = run_text_batch([bytes(bs)])[0]
+            return any(problem_class(p) == cls for p in judge_text(r))
+        except Exception:
+            return False
+    data = list(res["text"])
+    try:
+        small = vlib.ddmin(data, fails, max_tests=220)
+        r2 = run_text_batch([bytes(small)])[0]
+        p2 = judge_text(r2)
+        if any(problem_class(p) == cls for p in p2):
+            res, probs = r2, p2
+    except DriverFailure:
+        pass
+    main = ([p for p in probs if problem_class(p) == cls] or [main_problem(probs)])[0]
+    impl = any(p[1] is True for p in probs)
+    text = res["text"]
+    hc = res["h"] or {}
+    c.oblige(f"correspondence model = implementation ({label}; {cls})", False,
+             {"problems": [p[0] for p in probs][:6], "text": text.decode("utf-8", errors="backslashreplace")})
+    c.violation({"kind": "JSGF text", "failure_class": "text: " + cls, "what": main[0], "text_hex": text.hex(),
+                 "jsgf_text": text.decode("utf-8", errors="backslashreplace"),
+                 "problems": [{"class": problem_class(p), "what": p[0], "implementation_violates_property": p[1],
+                               "detail": p[2]} for p in probs],
+                 "implementation": {"parse": hc.get("parse"),
+                                    "built": [(t, k, "FSG" if isinstance(f, dict) else f) for t, k, f in hc.get("fsg", [])]},
+                 "model": {"parse": res["m_parse"][:300], "builds": res["rep"]},
+                 "implementation_violates_property": impl,
+                 "how_to_rerun": "python3 tools/check.py C05 --replay <this file>"}, impl, tag="text-" + cls)
     return False
 
 
@@ -1374,6 +1822,8 @@ def check(c):
                     break
         if batch and not fail_count:
             process(batch, "small-scope exhaustive")
+    if not fail_count:
+        text_stream(c, gen, stats, 900 if c.tier == "quick" else 30000, failed, fail_count, machinery)
     for msg in machinery:
         c.oblige("model driver runs", False, msg)
     # one shrunk witness per failure class, implementation-side classes first
@@ -1381,7 +1831,9 @@ def check(c):
     known = set()
     for grp in order[:6]:
         res, probs, marked, label = failed[grp]
-        if report(c, res, probs, label, marked):
+        if grp.startswith("text: "):
+            report_text(c, res, probs, label)
+        elif report(c, res, probs, label, marked):
             known.add(grp)
     unexplained = {k: v for k, v in fail_count.items() if k not in known}
     c.oblige("correspondence: real scanner/parser/expansion (ASan/UBSan) agree with the model on every generated grammar "
@@ -1405,6 +1857,7 @@ def check(c):
                   "regenerated_by_generator": stats.get("regenerated", {}),
                   "max_explored_forms": stats["max_forms"], "explored_forms_total": stats["forms_total"],
                   "max_fsg_states": stats["max_fsg_states"], "max_fsg_arcs": stats["max_fsg_arcs"],
+                  "text_front_end_stream": stats.get("text_stream", {}), "text_mutation_kinds": stats.get("mutation_kind", {}),
                   "failing_cases_per_class": fail_count})
 
 
@@ -1427,6 +1880,14 @@ def replay(c, path):
     c.lean_obligations()
     vlib.build_harness("h_c05")
     obj = json.loads(open(path).read())
+    if "text_hex" in obj:
+        res = run_text_batch([bytes.fromhex(obj["text_hex"])])[0]
+        probs = judge_text(res)
+        if probs:
+            report_text(c, res, probs, "replay")
+        c.oblige("replayed text: implementation agrees with the model", not probs, [p[0] for p in probs])
+        c.cov.update({"evaluations": 1, "distinct_nontrivial": 1})
+        return
     g = fix_grammar(obj["grammar"])
     text = obj.get("jsgf_text") or Printer(plain=True).grammar(g)
     res = run_batch(None, [(g, text)])[0]
